@@ -73,7 +73,7 @@ extern "C" float strtof(const char* __restrict s, char** __restrict end) noexcep
 
 static vf::Run* R;
 static std::string g_dir;
-static const int NX = 17;
+static int NX = 17;              // grid edge; 17 for the vector-count sweep, 3 for the restart-root regime
 static const char* BASE_NAME = "C10B";
 static const char* RUN_NAME = "C10R";
 
@@ -130,20 +130,21 @@ struct Setup {
     Vectors vec;
 };
 
-static std::string deck_text(int N, bool fmt, bool unif, int restart_step, int sv) {
+static std::string deck_text(int N, bool fmt, bool unif, int restart_step, int sv, const std::string& restart_root = BASE_NAME) {
     std::string keys = "FOPR\nWOPR\n 'P1' /\nBPR\n";
     for (int c = 0; c < N; ++c) {
         int i = c % NX, j = (c / NX) % NX, k = c / (NX * NX);
         keys += " " + std::to_string(i + 1) + " " + std::to_string(j + 1) + " " + std::to_string(k + 1) + " /\n";
     }
     keys += "/\n";
-    std::string s = "RUNSPEC\nDIMENS\n 17 17 17 /\nOIL\nWATER\nMETRIC\n";
+    const std::string nx = std::to_string(NX), nc = std::to_string(NX * NX * NX), nl = std::to_string(NX * NX);
+    std::string s = "RUNSPEC\nDIMENS\n " + nx + " " + nx + " " + nx + " /\nOIL\nWATER\nMETRIC\n";
     if (fmt) s += "FMTOUT\n";
     if (unif) s += "UNIFOUT\n";
     s += "WELLDIMS\n 2 2 2 2 /\nSTART\n " + std::string(START[sv].deck) + " /\n";
-    s += "GRID\nDX\n 4913*10 /\nDY\n 4913*10 /\nDZ\n 4913*1 /\nTOPS\n 289*2000 /\nPORO\n 4913*0.3 /\nPERMX\n 4913*100 /\nPERMY\n 4913*100 /\nPERMZ\n 4913*10 /\n";
+    s += "GRID\nDX\n " + nc + "*10 /\nDY\n " + nc + "*10 /\nDZ\n " + nc + "*1 /\nTOPS\n " + nl + "*2000 /\nPORO\n " + nc + "*0.3 /\nPERMX\n " + nc + "*100 /\nPERMY\n " + nc + "*100 /\nPERMZ\n " + nc + "*10 /\n";
     s += "PROPS\nSOLUTION\n";
-    if (restart_step > 0) s += "RESTART\n '" + std::string(BASE_NAME) + "' " + std::to_string(restart_step) + " /\n";
+    if (restart_step > 0) s += "RESTART\n '" + restart_root + "' " + std::to_string(restart_step) + " /\n";
     s += "SUMMARY\n" + keys;
     s += "SCHEDULE\nWELSPECS\n 'P1' 'G1' 1 1 1* OIL /\n/\nCOMPDAT\n 'P1' 1 1 1 1 OPEN 1* 1* 0.2 /\n/\nWCONPROD\n 'P1' OPEN ORAT 100 4* 50 /\n/\nTSTEP\n 12*1 /\nEND\n";
     return s;
@@ -151,15 +152,16 @@ static std::string deck_text(int N, bool fmt, bool unif, int restart_step, int s
 
 static std::shared_ptr<Python> g_python;
 
-static std::unique_ptr<Setup> make_setup(int N, bool fmt, bool unif, int restart_step, int sv, const char* basename) {
+static std::unique_ptr<Setup> make_setup(int N, bool fmt, bool unif, int restart_step, int sv, const std::string& basename,
+                                         const std::string& restart_root = BASE_NAME, const std::string& outdir = std::string()) {
     auto S = std::make_unique<Setup>();
     S->N = N; S->fmt = fmt; S->unif = unif; S->base = restart_step; S->sv = sv;
     Parser parser;
-    auto deck = parser.parseString(deck_text(N, fmt, unif, restart_step, sv));
+    auto deck = parser.parseString(deck_text(N, fmt, unif, restart_step, sv, restart_root));
     S->es = std::make_unique<EclipseState>(deck);
     S->sched = std::make_unique<Schedule>(deck, *S->es, g_python);
     S->sc = std::make_unique<SummaryConfig>(deck, *S->sched, S->es->fieldProps(), S->es->aquifer());
-    S->es->getIOConfig().setOutputDir(g_dir);
+    S->es->getIOConfig().setOutputDir(outdir.empty() ? g_dir : outdir);
     S->es->getIOConfig().setBaseName(basename);
     S->vec = make_vectors(N);
     return S;
@@ -168,7 +170,7 @@ static std::unique_ptr<Setup> make_setup(int N, bool fmt, bool unif, int restart
 // ----------------------------------------------------------------- writer ---
 // script: m = substep, M = closing ministep, w = write(false).  A 'w' after which no ministep follows is the
 // final data-carrying write and is issued with is_final_summary=true; write(true) closes every script.
-static Series run_writer(Setup& S, const char* basename, const std::string& script, int first_rstep, double t0_days, int tag, bool esmry) {
+static Series run_writer(Setup& S, const std::string& basename, const std::string& script, int first_rstep, double t0_days, int tag, bool esmry) {
     Series out;
     SummaryState st(TimeService::from_time_t(S.sched->getStartTime()), 0.0);
     out::Summary sum(*S.sc, *S.es, S.es->getInputGrid(), *S.sched, basename, esmry);
@@ -682,6 +684,128 @@ static void run_case(CaseGroup& G, const std::string& script) {
 #endif
 }
 
+// ------------------------------------------------- restart root length regime ---
+// The restarted run records the base run's root name (RESTART keyword as given) in the SMSPEC RESTART array, cut into
+// 8-character words: 9 words for a root of <= 72 characters, 17 words for 73..132 (OutputStream.cpp restartRoot());
+// longer roots are front-truncated to their last 132 characters with a warning.  The writer's own ESMRY stores the
+// whole root in one C0nn element.  ESmry::getRstString / ExtESmry reassemble the words and look for the base run next
+// to the restarted run (relative root) or at the absolute path.  Here the base run is written to a place whose root
+// string has exactly L characters, for every L in a set that straddles every layout boundary, in four forms:
+//   n: relative, name only ("QBBB..B")            d: relative, directory + name ("qqq..q/C10B")
+//   N: absolute, <scratch>/QBB..B                 D: absolute, <scratch>/qq..q/C10B
+#ifndef C10_SELECT_PART
+static const int ROOT_MAX = 132;                 // longest root the SMSPEC can hold (17 words, 132 characters used)
+static const std::vector<int>& root_lengths(bool thorough) {
+    static const std::vector<int> all = {1, 7, 8, 9, 15, 16, 17, 63, 64, 65, 71, 72, 73, 79, 80, 81, 127, 128, 129, 130, 131, 132, 133, 140};
+    static const std::vector<int> quick = {1, 8, 9, 64, 71, 72, 73, 80, 127, 128, 129, 130, 131, 132, 133};
+    return thorough ? all : quick;
+}
+
+struct RootPlace { std::string root, outdir, bname, topdir; bool ok = false; };
+static RootPlace place_root(int L, char form) {
+    RootPlace p;
+    const int G = int(g_dir.size());
+    auto name = [](int n) { return std::string("Q") + std::string(size_t(n - 1), 'B'); };
+    if (form == 'n') { if (L < 1) return p; p.bname = name(L); p.root = p.bname; p.outdir = g_dir; }
+    else if (form == 'd') { if (L < 6) return p; p.topdir = std::string(size_t(L - 5), 'q'); p.bname = BASE_NAME; p.root = p.topdir + "/" + p.bname; p.outdir = g_dir + "/" + p.topdir; }
+    else if (form == 'N') { const int n = L - G - 1; if (n < 1) return p; p.bname = name(n); p.root = g_dir + "/" + p.bname; p.outdir = g_dir; }
+    else { const int k = L - G - 6; if (k < 1) return p; p.topdir = std::string(size_t(k), 'q'); p.bname = BASE_NAME; p.root = g_dir + "/" + p.topdir + "/" + p.bname; p.outdir = g_dir + "/" + p.topdir; }
+    p.ok = int(p.root.size()) == L;
+    return p;
+}
+
+static std::string root_case_string(int L, char form, bool fmt, bool unif, int r, const std::string& script) {
+    return "ROOT len=" + std::to_string(L) + " form=" + std::string(1, form) + " fmt=" + std::to_string(fmt) + " unif=" + std::to_string(unif) + " base=" + std::to_string(r) + " script=" + script;
+}
+
+static void run_root_case(int L, char form, bool fmt, bool unif, int r, const std::string& script) {
+    const std::string casestr = root_case_string(L, form, fmt, unif, r, script);
+    R->current(casestr);
+    const RootPlace pl = place_root(L, form);
+    if (!pl.ok) { R->count("root_length_not_constructible_in_this_form"); return; }
+    R->evaluations++;
+    const std::string cfg = std::string(fmt ? "fmt" : "unf") + ":" + (unif ? "unif" : "multi");
+    const std::string rp = "{\"case\": " + vf::jstr(casestr) + "}";
+    const int saveNX = NX; NX = 3;
+    const int N = 2, sv = L % 2;
+    auto cleanup = [&] {
+        clean(RUN_NAME);
+        if (!pl.topdir.empty()) fs::remove_all(g_dir + "/" + pl.topdir); else clean(pl.bname + ".");
+        NX = saveNX;
+    };
+    try {
+        clean(RUN_NAME);
+        fs::create_directories(pl.outdir);
+        for (int k = 1; k <= 3; ++k) { char b[16]; std::snprintf(b, sizeof b, ".X%04d", k); std::ofstream(pl.outdir + "/" + pl.bname + b) << ""; }   // placeholder restart files (EclipseState checks)
+        auto baseS = make_setup(N, fmt, unif, 0, sv, pl.bname, BASE_NAME, pl.outdir);
+        const Series baseSeries = run_writer(*baseS, pl.bname, BASE_SCRIPT, 1, 0.0, 0, !fmt);
+        std::unique_ptr<Setup> S;
+        try { S = make_setup(N, fmt, unif, r, sv, RUN_NAME, pl.root); }
+        catch (const std::exception& ex) { R->violation("C10:deck+root:" + cfg + ":throws", "deck with RESTART root of " + std::to_string(L) + " characters is refused: " + std::string(ex.what()).substr(0, 200) + "  [" + casestr + "]", rp); cleanup(); return; }
+        double t0 = 0.0; for (auto& m : baseSeries.ms) if (m.rstep <= r) t0 = m.days;
+        const Series own = run_writer(*S, RUN_NAME, script, r + 1, t0, 1, !fmt);
+        Expect e = make_expect(*S, &baseSeries, r, own);
+        const Expect eo = make_expect(*S, nullptr, 0, own);
+        const std::string spec = g_dir + "/" + RUN_NAME + (fmt ? ".FSMSPEC" : ".SMSPEC");
+        const int P = int(S->vec.rkey.size());
+        std::vector<int> all(P); for (int i = 0; i < P; ++i) all[i] = i;
+        const std::string stored = L <= ROOT_MAX ? pl.root : pl.root.substr(size_t(L - ROOT_MAX));      // documented front truncation
+
+        // (a) the words of the SMSPEC RESTART array reassemble to the root that was given; layout as documented by the writer
+        bool words_ok = false;
+        {
+            Ctx c{"smspec-restart+root", cfg, casestr, fmt};
+            EclIO::EclFile f(spec); f.loadData();
+            const auto w = f.get<std::string>("RESTART"); const auto dim = f.get<int>("DIMENS");
+            std::string got; for (auto& x : w) got += x;
+            words_ok = got == stored;
+            if (!words_ok) viol(c, "root", "RESTART words reassemble to a string of " + std::to_string(got.size()) + " characters '" + got.substr(0, 24) + "..." + (got.size() > 12 ? got.substr(got.size() - 12) : "") + "', the root given has " + std::to_string(L) + " characters (expected stored form: " + std::to_string(stored.size()) + " characters ending '" + (stored.size() > 12 ? stored.substr(stored.size() - 12) : stored) + "')");
+            const size_t nw = L <= 72 ? 9 : 17;
+            if (w.size() != nw) viol(c, "layout", "RESTART array has " + std::to_string(w.size()) + " words for a root of " + std::to_string(L) + " characters; the writer documents 9 words up to 72 characters and 17 words above");
+            if (dim.size() < 6 || dim[5] != r) viol(c, "rstep", "DIMENS[5] is " + std::to_string(dim.size() < 6 ? -1 : dim[5]) + ", restart step is " + std::to_string(r));
+        }
+        R->observe(vf::fnv(casestr.substr(0, casestr.find(" script")) + (words_ok ? " ok" : " bad")));
+
+        // (b) the restarted run alone: own steps
+        try {
+            Ctx c{"esmry-own+root", cfg, casestr, fmt};
+            EclIO::ESmry sm(spec, false); sm.loadData();
+            check_axis(sm, eo, c, eo.rs_legacy, true); check_values(sm, eo, c, {});
+        } catch (const std::exception& ex) { viol({"esmry-own+root", cfg, casestr, fmt}, "throws", std::string("reader threw: ") + std::string(ex.what()).substr(0, 200)); }
+
+        // a reader with base: the chained series, or - only for a root longer than the SMSPEC can hold - a refusal by exception
+        const bool too_long = L > ROOT_MAX;
+        auto chained = [&](const std::string& reader, bool may_refuse, auto&& body) {
+            Ctx c{reader, cfg, casestr, fmt};
+            try { body(c); R->count("chained_reads_with_root_length"); }
+            catch (const std::exception& ex) {
+                if (may_refuse) R->count("root_longer_than_132_refused_by_exception");
+                else viol(c, "throws", "root of " + std::to_string(L) + " characters (" + std::string(form == 'n' || form == 'd' ? "relative" : "absolute") + "): reader threw: " + std::string(ex.what()).substr(0, 160));
+            }
+        };
+        // (c) ESmry with base, full and selective
+        chained("esmry-full+root", too_long, [&](const Ctx& c) { EclIO::ESmry sm(spec, true); sm.loadData(); check_axis(sm, e, c, e.rs_legacy, true); check_esmry_extra(sm, e, c); check_values(sm, e, c, {}); });
+        chained("esmry-select+root", too_long, [&](const Ctx& c) { EclIO::ESmry sm(spec, true); sm.loadData({S->vec.rkey[0], S->vec.rkey[P - 1]}); check_values(sm, e, c, {0, P - 1}); check_values(sm, e, c, {}); check_axis(sm, e, c, e.rs_legacy, true); });
+        // (d) writer's ESMRY (holds the whole root in one element) with the base run's ESMRY, then with a converted base ESMRY
+        if (!fmt) {
+            const std::string esmry = g_dir + "/" + RUN_NAME + ".ESMRY", besmry = pl.outdir + "/" + pl.bname + ".ESMRY";
+            if (!fs::exists(esmry) || !fs::exists(besmry)) viol({"ext-native+root", cfg, casestr, fmt}, "count", "ESMRY of the run or of the base run was not written");
+            else {
+                chained("ext-native+root", false, [&](const Ctx& c) { EclIO::ExtESmry ex(esmry, true); ex.loadData(); check_axis(ex, e, c, e.rs_flag, false); check_values(ex, e, c, {}); });
+                fs::remove(besmry);
+                chained("ext-native+convbase+root", false, [&](const Ctx& c) {
+                    EclIO::ESmry bs(pl.outdir + "/" + pl.bname + ".SMSPEC");
+                    if (!bs.make_esmry_file()) { viol(c, "throws", "make_esmry_file() of the base run returned false"); return; }
+                    EclIO::ExtESmry ex(esmry, true); check_axis(ex, e, c, e.rs_flag, false); check_values(ex, e, c, {});
+                });
+            }
+        }
+        if (R->samples.size() < 6 && L >= 129 && L <= 132) R->sample_str(casestr + " -> root '" + pl.root.substr(0, 20) + "...' stored in " + std::to_string(L <= 72 ? 9 : 17) + " words, chained ministeps=" + std::to_string(e.rows.size()));
+    } catch (const std::exception& ex) { R->violation("C10:harness:rootcase", std::string("unexpected exception: ") + ex.what() + " [" + casestr + "]", rp); }
+    cleanup();
+}
+#endif
+
 // ------------------------------------------------------------- enumeration ---
 static std::vector<int> n_values(bool thorough) {
     std::vector<int> v;
@@ -728,16 +852,27 @@ int main(int argc, char** argv) {
     const int maxlen = run.thorough() ? 4 : 3;
     g_order_depth = run.thorough() ? 3 : 2;
     const std::vector<int> bases = {0, 1, 2};
-    run.rule = "N BPR vectors, N in {1..12} u {k*1000+d-4: k=1..4, |d|<=" + std::string(run.thorough() ? "5" : "2") + "} u {4500} (total PARAMS count P=N+4 straddles every multiple of 1000) x ALL step scripts of length <= " + std::to_string(maxlen) + " (N=1: <= " + std::to_string(maxlen + 2) + ") over {m: substep, M: closing ministep, w: write} x FMTOUT x UNIFOUT x {no base, base run restarted at r=1,2}; readers ESmry full, ESmry selective (+lazy get of every vector), conversion->ExtESmry, writer's ESMRY->ExtESmry (unformatted only); for P in 4..8 additionally every sequence of <= " + std::to_string(run.thorough() ? 3 : 2) + " access operations over {dates, get(K1), get(Klast), loadData({K1,K2}), loadData with a repeated key, loadData with TIME in the middle, loadData(), get_at_rstep} on ONE fresh ESmry / ExtESmry object followed by the comparison of all vectors; all vectors x all ministeps compared with float(SummaryState) fingerprints, dates, report-step positions, units, start date; distinct = distinct file byte strings";
+    run.rule = "N BPR vectors, N in {1..12} u {k*1000+d-4: k=1..4, |d|<=" + std::string(run.thorough() ? "5" : "2") + "} u {4500} (total PARAMS count P=N+4 straddles every multiple of 1000) x ALL step scripts of length <= " + std::to_string(maxlen) + " (N=1: <= " + std::to_string(maxlen + 2) + ") over {m: substep, M: closing ministep, w: write} x FMTOUT x UNIFOUT x {no base, base run restarted at r=1,2}; readers ESmry full, ESmry selective (+lazy get of every vector), conversion->ExtESmry, writer's ESMRY->ExtESmry (unformatted only); for P in 4..8 additionally every sequence of <= " + std::to_string(run.thorough() ? 3 : 2) + " access operations over {dates, get(K1), get(Klast), loadData({K1,K2}), loadData with a repeated key, loadData with TIME in the middle, loadData(), get_at_rstep} on ONE fresh ESmry / ExtESmry object followed by the comparison of all vectors; all vectors x all ministeps compared with float(SummaryState) fingerprints, dates, report-step positions, units, start date; distinct = distinct file byte strings"
+               " || restart root length: base run written so that the root string stored in the restarted run's RESTART has exactly L characters, L in {" + [&] { std::string t; for (int L : root_lengths(run.thorough())) t += (t.empty() ? "" : ",") + std::to_string(L); return t; }() + "} (word boundaries 8k, the 9-word/17-word switch at 72, the maximum 132, and 133+ which the writer front-truncates) x {relative name, relative dir/name, absolute name, absolute dir/name} x FMTOUT x UNIFOUT x restart step " + std::string(run.thorough() ? "{1,2} x scripts {mM,Mm}" : "and script alternating with L") + " (N=2 on a 3x3x3 grid); oracle: SMSPEC RESTART words reassemble to the root given (last 132 characters beyond the maximum) in 9/17 words, DIMENS[5]=r, run alone = own steps, ESmry with base (full, selective), writer's ESMRY with base ESMRY (native and converted) = base history up to r + own steps with all vectors/dates/report steps; only a root > 132 may be refused by exception";
 #endif
     run.assumptions = {"reference model in the harness: series = values handed to add_timestep (float), time axis/report steps from the script",
                        "legacy SMSPEC/UNSMRY can only express 'last ministep of a SEQHDR group' as report step; a trailing open report step therefore reads as a report step in ESmry (accepted, counted), ESMRY's RSTEP flags are compared with the isSubstep flags",
                        "the last data-carrying write() of every script is is_final_summary=true (15 s ESMRY write throttle)",
                        "METRIC units only; START alternates between '1 JAN 2020' and '5 MAR 2021 06:30:15' with the parity of N; report steps start at 1 as in EclipseIO",
-                       "base run and restarted run have the same vector set; base run is the fixed script mMwMmM (3 report steps)"};
+                       "base run and restarted run have the same vector set; base run is the fixed script mMwMmM (3 report steps)",
+                       "restart roots are made of the characters [A-Za-z0-9/] (no blanks, no dots: the readers take path::stem() of the root); absolute roots shorter than the scratch path + 2 cannot be built and are counted"};
 
     if (!run.replay_path.empty()) {
         int N, f, u, b; char sbuf[64] = {0};
+#ifndef C10_SELECT_PART
+        if (run.replay_path.rfind("ROOT", 0) == 0) {
+            int L; char form;
+            if (std::sscanf(run.replay_path.c_str(), "ROOT len=%d form=%c fmt=%d unif=%d base=%d script=%63s", &L, &form, &f, &u, &b, sbuf) != 6) { std::cerr << "bad case string\n"; return 2; }
+            run_root_case(L, form, f, u, b, sbuf);
+            fs::current_path(fs::path(g_dir).parent_path()); if (!std::getenv("C10_KEEP")) fs::remove_all(g_dir);
+            return run.finish();
+        }
+#endif
         if (std::sscanf(run.replay_path.c_str(), "N=%d fmt=%d unif=%d base=%d script=%63s", &N, &f, &u, &b, sbuf) != 5) { std::cerr << "bad case string\n"; return 2; }
         auto G = make_group(N, f, u, b);
         run_case(*G, sbuf);
@@ -764,6 +899,16 @@ int main(int argc, char** argv) {
         }
         G.reset();
     }
+#ifndef C10_SELECT_PART
+    // restart root length regime
+    for (int L : root_lengths(run.thorough())) for (char form : {'n', 'd', 'N', 'D'}) for (int f = 0; f < 2 && !stop; ++f) for (int u = 0; u < 2 && !stop; ++u)
+        for (int b : (run.thorough() ? std::vector<int>{1, 2} : std::vector<int>{1 + (L + f + u) % 2})) for (const char* sc_ : {"mM", "Mm"}) {
+            if (!run.thorough() && std::string(sc_) != ((L + u) % 2 ? "mM" : "Mm")) continue;
+            if (!run.mine(gi++)) continue;
+            if (run.timed_out()) { stop = true; break; }
+            run_root_case(L, form, f, u, b, sc_);
+        }
+#endif
     run.count("values_compared", g_values);
     fs::current_path(fs::path(g_dir).parent_path()); fs::remove_all(g_dir);
     return run.finish();
